@@ -56,9 +56,21 @@ def gen_case(rng, tier):
         max_n = 40 if tier == "quick" else rng.choice((40, 80, 150))
     A, B = dgmgen.gen_pair(rng, max_n, allow_inf=False)
     k = rng.randint(2, 5 if max_n <= 12 else 2)
+    # short call history before the pair under test (same total size, other split; or the swapped pair)
+    prelude = []
+    r = rng.random()
+    if r < 0.3 and max_n <= 40 and (A or B):
+        if A and rng.random() < 0.5:
+            j = rng.randrange(len(A))
+            prelude.append([A[:j] + A[j + 1:], B + [A[j]]])
+        elif B:
+            j = rng.randrange(len(B))
+            prelude.append([A + [B[j]], B[:j] + B[j + 1:]])
+        if rng.random() < 0.4:
+            prelude.append([B, A])
     return {
         "inputs": {"dgm1": A, "dgm2": B, "rep1": dgmgen.representation(rng, A),
-                   "rep2": dgmgen.representation(rng, B)},
+                   "rep2": dgmgen.representation(rng, B), "prelude": prelude},
         "config": {"set_order": "sim", "modes": [rng.choice(mc.ORDER_MODES) for _ in range(k)],
                    "plain_mode": rng.choice(mc.ORDER_MODES), "warn_filter": rng.choice(mc.WARN_FILTERS)},
         "ops": [],
@@ -143,6 +155,26 @@ def run_case(case, sched):
     simset.CTX.iters = simset.CTX.permuted = 0
     results = []
     evals = 0
+    # the call history: other pairs go through both distance functions first, held to the same certificate clauses
+    n_prelude = 0
+    for pi, pq in enumerate(inp.get("prelude") or []):
+        if not (isinstance(pq, list) and len(pq) == 2):
+            raise InvalidCase("prelude")
+        for d_ in pq:
+            dgmgen.check_diagram_json(d_)
+            if any(not math.isfinite(p[1]) for p in d_):
+                raise InvalidCase("finite")
+        P, Q = dgmgen.materialize(pq[0]), dgmgen.materialize(pq[1])
+        SP, TQ = placeholder(pq[0]), placeholder(pq[1])
+        psc = max([abs(x) for p_ in list(SP) + list(TQ) for x in p_] + [1e-300])
+        if cfg.get("set_order", "sim") == "sim":
+            d_, rows_, _ = mc.call_bottleneck(sched, P, Q, True, (cfg.get("modes") or ["uniform"])[0], "ignore",
+                                              site="bottleneck.matching")
+            validate("bottleneck", d_, rows_, SP, TQ, "call #%d of the history" % pi, psc)
+        dw_, rw_, _ = mc.call_wasserstein(P, Q, True, "ignore", site="wasserstein.matching")
+        validate("wasserstein", dw_, rw_, SP, TQ, "call #%d of the history" % pi, psc)
+        n_prelude += 1
+        evals += 2
     if cfg.get("set_order", "sim") == "sim":
         modes = cfg.get("modes") or []
         if not modes:
@@ -184,7 +216,8 @@ def run_case(case, sched):
     dw_plain, _, _ = mc.call_wasserstein(A, B, False, wf)
     evals += 2
     sched.note("wasserstein d=%s rows=%s" % (dw.hex() if dw == dw else "nan", rows_w.tolist()))
-    validate("wasserstein", dw, rows_w, S, T, "wasserstein(matching=True)", scale)
+    validate("wasserstein", dw, rows_w, S, T, "wasserstein(matching=True)" + (
+        " after %d earlier call(s) on other pairs" % n_prelude if n_prelude else ""), scale)
     if not abs(dw - dw_plain) <= 1e-12 * max(abs(dw), scale):
         raise Violation("same-distance-with-and-without-matching", "wasserstein.matching",
                         "lt" if dw < dw_plain else "gt", "%r with matching, %r without" % (dw, dw_plain))
@@ -204,7 +237,8 @@ def run_case(case, sched):
                 any(r[0] >= 0 and r[1] >= 0 for r in rows_w) and any(r[0] < 0 or r[1] < 0 for r in rows_w)),
             "size_ge_40": int(len(S) + len(T) >= 40),
         },
-        "faults": {"set_iterations_ordered": simset.CTX.iters, "non_insertion_choices": simset.CTX.permuted},
+        "faults": {"set_iterations_ordered": simset.CTX.iters, "non_insertion_choices": simset.CTX.permuted,
+                   "cases_with_call_history": int(n_prelude > 0)},
     }
 
 
